@@ -44,7 +44,8 @@ const (
 	KRestart = "restart" // F9: clean restart at a block boundary
 	KGenesis = "genesis_restart"
 	KQuery   = "query"
-	KICA     = "ica" // C20 world event
+	KICA     = "ica"      // C20 world event
+	KSim     = "simulate" // a client's gas estimation: the messages run on a throw-away branch (what the Simulate RPC does)
 )
 
 type Step struct {
